@@ -106,6 +106,16 @@ def run(chk):
             # in the continuation arm the only mutations are extend (of this entry) and remove (of this key), both after the lookup succeeded
             cont_muts = [bb for bb, t, m in muts if m != "insert"] + [bb for bb, t in hp.calls() if names.call_is(t, "Message::extend")]
             ok = ok and all(flow.cut_by_edges(hp, 0, [bb], found_edges) for bb in cont_muts)
+        # a continuation completes (and delivers) the message only when extend() returned Ok(true)
+        is_ext = lambda x: isinstance(x, tuple) and len(x) == 4 and x[0] == "call" and names.is_(x[1], "Message::extend")
+        ext_ok, ext_bad = flow.success_edges(p, hp, is_ext, Th, N=N)
+        rem = [bb for bb, t, m in muts if m == "remove"]
+        deliv = bool(ext_ok) and bool(rem) and all(flow.cut_by_edges(hp, 0, [bb], ext_ok) for bb in rem)
+        if deliv:
+            for bb in rem:
+                cds = normal.conditions(N, p, hp, bb, Th) or []
+                deliv = deliv and any(flow.is_payload_of(flow.bool_atom(t, l)[0], is_ext) and flow.bool_atom(t, l)[1] is True for sb2, l, t in cds)
+        chk.ob("R2 continuation without init", "R2|delivered-only-when-complete", deliv, where(hp, rem[0]) if rem else where(hp), "the entry is removed and returned only past extend(..) == Ok(true): %s" % deliv)
         chk.ob("R2 continuation without init", "R2|none-before-mutation", ok, where(hp, gb), "lookup None → return None; remove/extend only past the successful lookup: %s %s" % (ok, dbg))
 
     # ---------------- R3
@@ -116,6 +126,21 @@ def run(chk):
     cmd = p.adts.get(H + "Command")
     got = {v["name"]: int(v["discr"]) for v in cmd["variants"]} if cmd else {}
     chk.ob("R3 constants agree", "R3|command-bytes", got == CMD, H + "Command", "command bytes %s" % got)
+    # the decoder maps each byte to the variant whose discriminant (= the byte the encoder writes) it is
+    cd = p.method(H + "Command", "try_from", trait="core::convert::TryFrom")
+    if chk.require("R3 constants agree", "R3|Command::try_from", cd, H + "Command", "TryFrom<u8> for Command not found"):
+        chk.touched(cd)
+        dec = {}
+        for o in normal.rows(S, cd, N, expand=False):
+            if o.variant[:1] != ("Ok",):
+                continue
+            v = dict(o.value[3]).get("0")
+            for t, l, f, w in o.conds:
+                if t == ("param", 1) and l[0] == "in" and isinstance(v, tuple) and v and v[0] == "agg":
+                    for b in l[1:]:
+                        dec[v[2]] = dec.get(v[2], set()) | {int(b)}
+        okd = set(dec) == set(CMD) and all(dec[k] == {CMD[k]} for k in dec)
+        chk.ob("R3 constants agree", "R3|Command::try_from|decodes-what-encode-writes", okd, where(cd), "byte → variant table of the decoder: %s (encoder: %s)" % ({k: sorted(v) for k, v in dec.items()}, CMD))
     # encoders
     def writes(b):
         """(range/index constants, source description) of buffer writes in an encoder"""
@@ -306,7 +331,19 @@ def run(chk):
     fe = zero_sites
     order = bool(enc and fe) and enc[0] in snd.reachable(fe[0], follow_yield_drop=False)
     conds = flow.conditions(p, snd, fe[0], Ts) if fe else []
-    last = any((flow.eq_test(t, l) or (None, None))[1] is True for sb, l, t in conds)
+    def is_last_index(e):
+        """index == len(packets) - 1"""
+        if e is None or e[1] is not True or len(e[0]) != 2:
+            return False
+        a, b = tuple(e[0])
+        for x, y in ((a, b), (b, a)):
+            sub1 = isinstance(x, tuple) and x and x[0] == "binop" and x[1] in ("Sub", "SubWithOverflow", "SubUnchecked") and x[3] == ("const", 1) and has(x[2], lambda z: is_call(z, "Vec::len") or is_call(z, "slice::len"))
+            sub1 = sub1 or (isinstance(x, tuple) and x and x[0] == "field" and x[2] == "0" and isinstance(x[1], tuple) and x[1][0] == "binop" and x[1][1].startswith("Sub") and x[1][3] == ("const", 1) and has(x[1][2], lambda z: is_call(z, "Vec::len") or is_call(z, "slice::len")))
+            idx = has(y, lambda z: is_call(z, "Iterator::next")) or has(y, lambda z: is_call(z, "Iterator::enumerate"))
+            if sub1 and idx:
+                return True
+        return False
+    last = any(is_last_index(flow.eq_test(N.norm(t), l)) for sb, l, t in conds)
     chk.ob("R5 full packets", "R5|send|tail-zeroed-on-last-packet-before-encode", zero and order and last, where(snd, fe[0]) if fe else where(snd), "zeroing closure: %s, guarded by i == last: %s, before encode: %s" % (zero, last, order))
 
     # ---------------- R6
@@ -334,7 +371,7 @@ def run(chk):
         chk.ob("R6 size refusal", "R6|new|largest-accepted-within-protocol", largest <= PROTO_MAX and need_cont <= 128 and (I, C) == (57, 59) and U == 65535, where(new),
                "guard constants init=%s cont=%s max_cont=%s u16 guard=%s → largest accepted payload %d (protocol maximum %d), needing %d continuation packets" % (I, C, K, U, largest, PROTO_MAX, need_cont))
     chk.floor("R1", 3)
-    chk.floor("R2", 1)
+    chk.floor("R2", 2)
     chk.floor("R3", 15)
     chk.floor("R4", 5)
     chk.floor("R5", 2)
